@@ -199,6 +199,11 @@ package buffer
 //@   requires b.r != nil && b.source.dataIntegrityCallback != nil
 //@   ensures [source-read-only-through-the-validator] rdCalls(b.r) == old(rdCalls(b.r))
 //@   ensures [validator-consulted-before-success] result1 == nil ==> rdCalls(r) > 0
+// Reading from an offset skips the prefix THROUGH the validator (it has to be
+// hashed and counted like everything else).
+//@ func (*casReaderBuffer).ToChunkReader
+//@   requires b.r != nil && b.source.dataIntegrityCallback != nil
+//@   ensures [source-read-only-through-the-validator] rdCalls(b.r) == old(rdCalls(b.r))
 //@ func (*casReaderBuffer).IntoWriter
 //@   requires b.r != nil && b.source.dataIntegrityCallback != nil
 //@   requires [passed-on] tinv(w) && !typeis(w, "*bytes.Buffer")
